@@ -62,7 +62,7 @@ def confirm(pid, x, src):
 
 def main(argv):
     for pid in argv:
-        bases = [b for b in ("/tmp/mut_%s/out" % pid, "/tmp/mut2_%s/out" % pid, "/tmp/mut4_%s/out" % pid, "/tmp/mut5_%s/out" % pid, "/tmp/mut6_%s/out" % pid) if os.path.isdir(b)]
+        bases = [b for b in ("/tmp/mut_%s/out" % pid, "/tmp/mut2_%s/out" % pid, "/tmp/mut4_%s/out" % pid, "/tmp/mut5_%s/out" % pid, "/tmp/mut6_%s/out" % pid, "/tmp/mut7_%s/out" % pid) if os.path.isdir(b)]
         if not bases:
             print(pid, "no delivery")
             continue
